@@ -136,20 +136,42 @@ theorem matchSlice_le : ∀ (pos : List Action) (toks : List Tok) (r : List Nat)
           · omega
           · omega
       · simp at h
-    · cases hm : matchSlice more (toks.drop (toks.takeWhile (fun k => k.isDD || k.isArg)).length) with
-      | none => rw [hm] at h; simp at h
-      | some q =>
-        rw [hm] at h
-        simp only [Option.map_some] at h
-        injection h with h
-        subst h
-        obtain ⟨ih, il⟩ := matchSlice_le more _ q hm
-        rw [takeWhile_da_eq] at ih ⊢
-        have := nonO_drop_nonO toks
-        simp only [List.sum_cons, List.length_cons]
-        constructor
-        · omega
-        · omega
+    · split at h
+      · -- plus
+        split at h
+        · rename_i s r' hd
+          cases hm : matchSlice more (r'.drop (r'.takeWhile (fun k => k.isDD || k.isArg)).length) with
+          | none => rw [hm] at h; simp at h
+          | some q =>
+            rw [hm] at h
+            simp only [Option.map_some] at h
+            injection h with h
+            subst h
+            obtain ⟨ih, il⟩ := matchSlice_le more _ q hm
+            rw [takeWhile_da_eq] at ih ⊢
+            have h1 := nonO_drop_dd toks
+            rw [hd] at h1
+            have h2 : nonO (Tok.arg s :: r') = nonO r' + 1 := nonO_arg s r'
+            have h3 := nonO_drop_nonO r'
+            simp only [List.sum_cons, List.length_cons]
+            constructor
+            · omega
+            · omega
+        · simp at h
+      · cases hm : matchSlice more (toks.drop (toks.takeWhile (fun k => k.isDD || k.isArg)).length) with
+        | none => rw [hm] at h; simp at h
+        | some q =>
+          rw [hm] at h
+          simp only [Option.map_some] at h
+          injection h with h
+          subst h
+          obtain ⟨ih, il⟩ := matchSlice_le more _ q hm
+          rw [takeWhile_da_eq] at ih ⊢
+          have := nonO_drop_nonO toks
+          simp only [List.sum_cons, List.length_cons]
+          constructor
+          · omega
+          · omega
 
 theorem matchPartial_le (pos : List Action) (toks : List Tok) :
     (matchPartial pos toks).sum ≤ nonO toks ∧ (matchPartial pos toks).length ≤ pos.length := by
